@@ -92,6 +92,7 @@ type Explorer struct {
 	Fn  *ssa.Function
 
 	mu       sync.Mutex
+	unsuppSamples int
 	cond     *sync.Cond
 	work     [][]int16
 	active   int
@@ -847,6 +848,16 @@ func (w *Worker) runPath(prefix []int16) {
 			w.sched.finish(ip)
 		}
 	}()
+	if outcome == "unsupported" {
+		// keep a model of some of these paths: the check runs them natively instead
+		ex.mu.Lock()
+		k := ex.unsuppSamples
+		ex.unsuppSamples++
+		ex.mu.Unlock()
+		if k < 300 {
+			w.report(&Finding{Kind: "unsupported", ID: "unsupported", Site: fmt.Sprintf("%s #%d", trimPos(detail), k), Msg: detail}, nil)
+		}
+	}
 	if outcome == "unwound" {
 		// keep a model so that a hang can be confirmed natively
 		w.report(&Finding{Kind: "unwound", ID: "unwound", Site: ip.curFnName(), Msg: detail}, nil)
